@@ -768,9 +768,12 @@ class Executor:
             j, guard, elem, view = self.comp_binder(g, s)
             self.bind_target(g.target, elem, s)
             conds = [truth(self.ev1(c, s), s) for c in g.ifs]
+            n_fresh0, p0, heap0 = len(s.fresh), len(s.pc), s.heap
             out = self.ev1(e.elt, s)
             out_t = to_v(out, s)
             ety = out.ty if isinstance(out, Val) else ANY
+            if len(s.fresh) > n_fresh0:
+                out_t = self.skolemize_elements(s, n_fresh0, p0, heap0, j, z3.And(guard, *conds), out_t)
         finally:
             self.pure_depth -= 1
         st.pc[:] = s.pc
@@ -802,6 +805,28 @@ class Executor:
         )
         return r
 
+    def skolemize_elements(self, s, n_fresh0, p0, heap0, j, guard, out_t):
+        """The element expression of a comprehension allocated objects: ONE object per index.  Each reference r allocated
+        while evaluating the element becomes a Skolem function F_r(j) of the index; the facts recorded about r are
+        asserted for every index in range; the family is injective and disjoint from every other allocation."""
+        if s.heap is not heap0:
+            raise Unsupported("comprehension element allocates a container or writes a field")
+        new_fresh = s.fresh[n_fresh0:]
+        new_pc = s.pc[p0:]
+        pairs, extra, pats = [], [], []
+        for r in new_fresh:
+            f = z3.Function(smt.fresh_name("sk"), z3.IntSort(), V)
+            inv = z3.Function(smt.fresh_name("skinv"), V, z3.IntSort())
+            pairs.append((r, f(j)))
+            extra += [inv(f(j)) == j, smt.SkFam(f(j)) == smt.next_family()]
+            pats.append(f(j))
+        zero = [smt.SkFam(r) == 0 for r in new_fresh]
+        facts = [z3.substitute(f, *pairs) for f in new_pc if not any(f.eq(z) for z in zero)] + extra
+        del s.pc[p0:]
+        del s.fresh[n_fresh0:]
+        s.assume(z3.ForAll([j], z3.Implies(guard, z3.And(*facts)), patterns=pats))
+        return z3.substitute(out_t, *pairs)
+
     def ev_SetComp(self, e, st):
         if len(e.generators) > 2:
             raise Unsupported("set comprehension with >2 generators")
@@ -809,6 +834,7 @@ class Executor:
         self.pure_depth += 1
         try:
             js, guards = [], []
+            n_fresh_in = len(s.fresh)
             for g in e.generators:
                 j, guard, elem, view = self.comp_binder(g, s)
                 self.bind_target(g.target, elem, s)
@@ -818,6 +844,8 @@ class Executor:
             out = self.ev1(e.elt, s)
             out_t = to_v(out, s)
             ety = out.ty if isinstance(out, Val) else ANY
+            if len(s.fresh) > n_fresh_in:
+                raise Unsupported("set comprehension allocating objects per element")
         finally:
             self.pure_depth -= 1
         st.pc[:] = s.pc
@@ -841,8 +869,11 @@ class Executor:
             j, guard, elem, view = self.comp_binder(g, s)
             self.bind_target(g.target, elem, s)
             guards = [guard] + [truth(self.ev1(c, s), s) for c in g.ifs]
+            n_fresh_in = len(s.fresh)
             kv = self.ev1(e.key, s)
             vv = self.ev1(e.value, s)
+            if len(s.fresh) > n_fresh_in:
+                raise Unsupported("dict comprehension allocating objects per element")
             k_t, v_t = to_v(kv, s), to_v(vv, s)
             kty = kv.ty if isinstance(kv, Val) else ANY
             vty = vv.ty if isinstance(vv, Val) else (INT if isinstance(vv, IVal) else BOOL if isinstance(vv, BVal) else ANY)
